@@ -360,8 +360,16 @@ def import_tables():
                         "<2**lenself.classical_controls"):
                     raise TranslatorError("Gate.__init__: range test of classical_control_value not recognised: " + t)
                 cv_check = True
+    # does _custom_gate reject a repeated qubit among the (substituted) arguments of a body statement?
+    fcg = _find(qp.body, ast.FunctionDef, "_custom_gate")
+    body_dup = False
+    for n in ast.walk(fcg):
+        if isinstance(n, ast.If) and any(isinstance(b, ast.Raise) for b in n.body) and "com_regs" in ast.unparse(n.test):
+            if ast.unparse(n.test).replace(" ", "") != "len(set(com_regs))!=len(com_regs)":
+                raise TranslatorError("_custom_gate: test on com_regs not recognised: " + ast.unparse(n.test))
+            body_dup = True
     return {"predefined": predefined, "qiskit": qiskit, "rows": rows, "user_gates": sorted(expect),
-            "sigs": sigs, "cv_check": cv_check}
+            "sigs": sigs, "cv_check": cv_check, "body_dup": body_dup}
 
 
 # ------------------------------------------------------------------------------------------
@@ -423,6 +431,9 @@ def render():
     A("")
     A("/-- `Gate.__init__` raises ValueError unless 0 <= classical_control_value < 2**len(classical_controls) -/")
     A("def gateChecksControlValue : Bool := " + ("true" if i["cv_check"] else "false"))
+    A("")
+    A("/-- `_custom_gate` raises ValueError when a body statement repeats a qubit argument -/")
+    A("def customChecksRepeat : Bool := " + ("true" if i["body_dup"] else "false"))
     A("")
     A("/-- user gates installed by `_get_qiskit_gates` (bodies recognised by the translator) -/")
     A("def userGates : List Str := " + lean_list([lean_str(x) for x in i["user_gates"]]))
